@@ -701,15 +701,27 @@ def r_ret(ctx):
 
     def passes_check(nd, value):
         """conds at nd imply: vt_check is None, or vt_check == set_vt(value, len(vt_check))"""
-        for atom, pol in ctx.conds(f, nd):
+        def one(atom, pol):
             if atom[0] == 'cmp' and atom[1] == 'is' and atom[2] == vt and atom[3] == ('c', None) and pol:
                 return 'no check supplied on this path'
-            if atom[0] == 'cmp' and atom[1] == '==' and pol:
+            if atom[0] == 'cmp' and atom[1] == 'is not' and atom[2] == vt and atom[3] == ('c', None) and not pol:
+                return 'no check supplied on this path'
+            if atom[0] == 'cmp' and ((atom[1] == '==' and pol) or (atom[1] == '!=' and not pol)):
                 for a, b in ((atom[2], atom[3]), (atom[3], atom[2])):
                     if a == vt and call_name(b) and call_name(b).endswith('.set_vt'):
                         if call_arg(b, 0, 'dna_sequence') == value and \
                                 call_arg(b, 1, 'vt_length') == ('call', ('g', 'builtins.len'), (vt,), ()):
                             return 'check comparison holds for this value'
+            return None
+        for atom, pol in ctx.conds(f, nd):
+            h = one(atom, pol)
+            if h:
+                return h
+            # (no check supplied) or (check matches), taken as a whole
+            if atom[0] == 'bool' and atom[1] == 'or' and pol:
+                hs = [one(x, True) for x in atom[2:]]
+                if all(hs):
+                    return ' or '.join(sorted(set(hs)))
         return None
     n = 0
     for nd in f.stmts(ast.Return):
